@@ -361,7 +361,72 @@ func c05(p *Prog, r *Report) {
 			}
 		}
 		okReg, why := len(regs) == 1, fmt.Sprintf("found %d registration sites (issuers[type] = append(issuers[type], issuer))", len(regs))
-		if okReg {
+		var viaHelper *ssa.Call
+		if len(regs) == 0 {
+			// the registration may live in a helper the loop calls with the current
+			// issuer: the helper must register its parameter under the parameter's
+			// own Type() before every return
+			for _, b := range ctor.Blocks {
+				for _, in := range b.Instrs {
+					c, ok := in.(*ssa.Call)
+					if !ok {
+						continue
+					}
+					h := c.Call.StaticCallee()
+					if h == nil || h.Blocks == nil || !InModule(h) {
+						continue
+					}
+					hs := p.NewSym(h)
+					for _, hb := range h.Blocks {
+						for _, hin := range hb.Instrs {
+							mu, ok := hin.(*ssa.MapUpdate)
+							if !ok {
+								continue
+							}
+							ap, ok := mu.Value.(*ssa.Call)
+							if !ok {
+								continue
+							}
+							if bi, ok := ap.Call.Value.(*ssa.Builtin); !ok || bi.Name() != "append" {
+								continue
+							}
+							el, key := hs.Of(ap.Call.Args[1]).String(), hs.Of(mu.Key).String()
+							for i := range h.Params {
+								prm := fmt.Sprintf("param:%d", i)
+								if !(el == "list("+prm+")" || el == prm) || key != "call<(tokens/batched.Issuer).Type>("+prm+")" || i >= len(c.Call.Args) {
+									continue
+								}
+								dom := true
+								for _, rb := range h.Blocks {
+									if _, isRet := rb.Instrs[len(rb.Instrs)-1].(*ssa.Return); isRet && rb != mu.Block() && !mu.Block().Dominates(rb) {
+										dom = false
+									}
+								}
+								if dom && glob("*index(param:0, *)*", cs.Of(c.Call.Args[i]).String()) {
+									viaHelper = c
+								}
+							}
+						}
+					}
+				}
+			}
+			if viaHelper != nil {
+				okReg, why = true, ""
+				loop := innermostLoop(naturalLoops(ctor), viaHelper.Block())
+				if loop == nil {
+					okReg, why = false, "the registration is not inside the loop over the issuers"
+				} else {
+					for blk := range loop.Blocks {
+						for _, su := range blk.Succs {
+							if su == loop.Header && !viaHelper.Block().Dominates(blk) && blk != viaHelper.Block() {
+								okReg, why = false, "an iteration can reach the next one without registering the issuer (skip/continue before the registration at "+p.InstrPos(viaHelper)+")"
+							}
+						}
+					}
+				}
+			}
+		}
+		if okReg && viaHelper == nil {
 			mu := regs[0]
 			ap := mu.Value.(*ssa.Call)
 			el := cs.Of(ap.Call.Args[1]).String()
